@@ -117,6 +117,14 @@ def setup(eng, st):
 
     eng.method_models[(str, "endswith")] = Model("str.endswith", endswith)
 
+    def startswith(e, s, a, k):
+        self, pre = a
+        if not isinstance(pre, str):
+            raise Unsupported("str.startswith with a symbolic prefix")
+        yield s, SV(V.mk_bool(z3.PrefixOf(z3.StringVal(pre), V.Val.s(self.t))))
+
+    eng.method_models[(str, "startswith")] = Model("str.startswith", startswith)
+
 
 def build(active_known=frozenset()):
     from basilisp.lang import reader as rd
@@ -554,6 +562,130 @@ def add_resolution(pack):
         c.ensures("a special form stays as it is; alias/x is qualified with the aliased namespace's name (and left alone without such an alias); an unqualified x becomes "
                   "the fully qualified name of the Var it denotes in the namespace, or is qualified with that namespace when it denotes none", post)
         c.modifies()
+        c.replay(lambda m, ctx, ob: RES_REPLAY)
+        c.replay_without_model = True
+
+
+    # ------------------------------------------------------------------ _read_sym: which symbols of a template are resolved
+    from basilisp.lang import reader as rd
+
+    NS_TOK, NAME_TOK = z3.Const("token_ns", V.Val), z3.Const("token_name", V.Val)
+    RESOLVED = z3.Function("resolver_result", V.Val, V.Val)
+    BADSEG = z3.Function("has_empty_namespace_segment", z3.StringSort(), z3.BoolSort())
+
+    def ssetup(eng, st):
+        rsetup(eng, st)
+        RC = rd.ReaderContext
+        eng.class_id(RC)
+        lid = eng.class_id(list)
+        eng.field_types[("ReaderContext", "_syntax_quoted")] = lambda v: (z3.And(V.is_ref(v), V.cls_of(V.Val.a(v)) == lid), list)
+
+        def namespaced(e, s, a, k):
+            s.assume(z3.Or(V.is_none(NS_TOK), V.is_str(NS_TOK)), V.is_str(NAME_TOK))
+            yield s, (SV(NS_TOK), SV(NAME_TOK))
+
+        def split(e, s, a, k):
+            # over-approximation: some list of strings (which segments are empty is left open)
+            sv = e.alloc(s, list)
+            content = z3.Const(V.fresh_name("segments"), V.ValSeq)
+            s.lists = z3.Store(s.lists, V.Val.a(sv.t), content)
+            yield s, sv
+
+        eng.method_models[(str, "split")] = Model("str.split (over-approximated: some list)", split)
+
+        def any_(e, s, a, k):
+            from pyvc.loops import SymIter
+
+            if not isinstance(a[0], SymIter):
+                raise Unsupported("any() of something other than a symbolic generator")
+            yield s, SV(V.mk_bool(z3.Const(V.fresh_name("any_segment_empty"), z3.BoolSort())))
+
+        eng.models[id(any)] = Model("any(<generator over a symbolic list>) (over-approximated: either answer)", any_)
+        eng.models[id(rd._read_namespaced)] = Model("_read_namespaced (the token's namespace and name; C16 covers the stream)", namespaced)
+        eng.method_models[(RC, "syntax_error")] = Model("ReaderContext.syntax_error", lambda e, s, a, k: iter([(s, Exc(rd.SyntaxError, tuple(a[1:])))]))
+
+        def resolve(e, s, a, k):
+            arg = e.lift(a[1], s)
+            s.ghost["resolve_calls"] = list(s.ghost.get("resolve_calls", [])) + [(s.copy(), arg)]
+            r = RESOLVED(arg)
+            s.assume(e.external_ref_fact(s, r))
+            yield s, SV(r)
+
+        eng.method_models[(RC, "resolve")] = Model("ReaderContext.resolve (the resolver the reader was given; runtime.resolve_alias by default)", resolve)
+
+    c = pack.contract("basilisp.lang.reader:_read_sym")
+    c.param("ctx", OBJ(rd.ReaderContext)).param("is_reader_macro_sym", T(lambda v: V.is_bool(v), None, "bool"))
+    c.setup(ssetup)
+    c.raises(rd.SyntaxError)
+
+    def sym_post(a):
+        e, pre, st = a.eng, a.pre.st, a.post.st
+        q = z3.Select(pre.lists, V.Val.a(fld(pre, a.ctx, "_syntax_quoted")))
+        in_sq = z3.And(z3.Length(q) > 0, q[z3.Length(q) - 1] == V.mk_bool(True))
+        name = V.Val.s(NAME_TOK)
+        literal = z3.And(V.is_none(NS_TOK), z3.Or(*[name == z3.StringVal(x) for x in ("nil", "true", "false", "&")], z3.PrefixOf(z3.StringVal("."), name)))
+        gensym = z3.SuffixOf(z3.StringVal("#"), name)
+        calls = st.ghost.get("resolve_calls", [])
+        must_resolve = z3.And(in_sq, z3.Not(gensym), z3.Not(V.Val.b(a.is_reader_macro_sym)), z3.Not(literal))
+        if len(calls) == 1:
+            at, arg = calls[0]
+            return z3.And(must_resolve, a.result == RESOLVED(arg), is_sym(e, at, arg, NS_TOK, NAME_TOK))
+        if len(calls) > 1:
+            return z3.BoolVal(False)
+        return z3.And(z3.Not(must_resolve), z3.Implies(z3.Not(literal), is_sym(e, st, a.result, NS_TOK, NAME_TOK)))
+
+    c.ensures("inside a syntax-quote every symbol that is not an auto-gensym, not a literal (nil, true, false, &, .member) and not the tag of a reader macro is returned "
+              "as the resolver's answer for exactly that symbol; everywhere else the symbol is returned as written", sym_post)
+    c.replay(lambda m, ctx, ob: RES_REPLAY)
+    c.replay_without_model = True
+
+
+RES_REPLAY = r'''
+from basilisp.lang import runtime as rt, symbol as sym
+S = sym.symbol
+A, B = 'c09-replay-a', 'c09-replay-b'
+a = rt.Namespace.get_or_create(S(A))
+b = rt.Namespace.get_or_create(S(B))
+vb = rt.Var.intern(b, S('shared'), 1)
+va = rt.Var.intern(a, S('mine'), 2)
+a.add_alias(b, S('bb'))
+a.add_refer(S('shared'), vb)
+a.add_refer(S('renamed'), vb)
+rt.Var.intern(rt.Namespace.get_or_create(S(rt.CORE_NS)), S(rt.NS_VAR_NAME), a, dynamic=True)
+bad = []
+def chk(desc, got, want):
+    if got != want:
+        bad.append('%s: expected %r, got %r' % (desc, want, got))
+try:
+    for given in (True, False):
+        def res(s):
+            if given:
+                return rt.resolve_alias(s, a)
+            return rt.resolve_alias(s)    # the current namespace: *ns* (interned below with a as its root value)
+        chk('own Var', res(S('mine')), S('mine', A))
+        chk('referred Var', res(S('shared')), S('shared', B))
+        chk('Var referred under another name', res(S('renamed')), S('shared', B))
+        chk('no Var', res(S('nothing')), S('nothing', A))
+        chk('aliased namespace', res(S('x', 'bb')), S('x', B))
+        chk('unknown alias', res(S('x', 'zz')), S('x', 'zz'))
+        chk('special form', res(S('if')), S('if'))
+    from basilisp.lang import reader
+    seen = []
+    def resolver(s):
+        seen.append(s)
+        return S(s.name, ns='resolved')
+    form = list(reader.read_str("`(foo al/bar g# nil .meth & true)", resolver=resolver))[0]
+    chk('symbols of a template given to the resolver', seen, [S('foo'), S('bar', 'al')])
+    chk('the resolved symbols are what the template holds', 'resolved/foo' in repr(form) and 'resolved/bar' in repr(form), True)
+    del seen[:]
+    form = list(reader.read_str("(foo al/bar)", resolver=resolver))[0]
+    chk('outside a syntax-quote nothing is resolved', (seen, form), ([], reader.read_str and list(reader.read_str("(foo al/bar)"))[0]))
+except BaseException as e:
+    bad.append('unexpected %s: %s' % (type(e).__name__, e))
+for line in bad[:10]:
+    print(line)
+print('REPRODUCED' if bad else 'not reproduced')
+'''
 
 
 SQ_REPLAY = r'''
